@@ -205,7 +205,8 @@ def _gen_op(g, kind, cols, stats):
                 e["copy_columns"] = g.sample(cc, g.randint(1, len(cc)))
             else:
                 stats.append("optional_param_absent")
-            evs["ev%d" % i] = e
+            # event names are free text (any key is a legal event name)
+            evs[g.pick(["ev%d", "ev%d", "stop-signal %d", "resp.left%d", "go/no-go-%d"]) % i] = e
         p = {"anchor_column": anchor, "new_events": evs, "remove_parent_row": g.chance(0.5)}
         new_cols = None      # the anchor column now holds the new event names: stop chaining (value kinds changed)
     return {"operation": kind, "description": "generated", "parameters": p}, new_cols
@@ -228,6 +229,8 @@ def _invalidate(g, ops):
         choices += ["map-row-wrong-length", "integer-sources-not-sources"]
     if k == "merge_consecutive":
         choices += ["column-in-match-columns"]
+    if k == "split_rows":
+        choices += ["split-event-without-duration", "split-event-onset-source-not-a-list", "split-event-without-duration"]
     how = g.pick(choices)
     p = op["parameters"]
     if how == "missing-required":
@@ -262,6 +265,10 @@ def _invalidate(g, ops):
         p["integer_sources"] = ["not_a_source"]
     elif how == "column-in-match-columns":
         p["match_columns"] = [p["column_name"]]
+    elif how == "split-event-without-duration":
+        del p["new_events"][g.pick(sorted(p["new_events"]))]["duration"]
+    elif how == "split-event-onset-source-not-a-list":
+        p["new_events"][g.pick(sorted(p["new_events"]))]["onset_source"] = "duration"
     return how
 
 
@@ -493,15 +500,41 @@ def _model_op(op, t):
             if [r[j] for j in idx] == [rows[i - 1][j] for j in idx]:
                 removed.add(i)
         kept = [r for i, r in enumerate(rows) if i not in removed]
+        kept_idx = [i for i in range(len(rows)) if i not in removed]
         di = cols.index("duration") if "duration" in cols else None
+        oi = cols.index("onset") if "onset" in cols else None
+        # set_durations: "the duration of the merged event is the extent of the merged events": from the anchor's onset to
+        # the latest end among the merged rows; a row without a duration ends where it starts
+        extent = {}
+        if p["set_durations"] and di is not None and oi is not None:
+            members = {}
+            for i in sorted(removed):
+                a = i - 1
+                while a in removed:
+                    a -= 1
+                members.setdefault(a, [a]).append(i)
+            for a, grp in members.items():
+                ons = [_num(rows[i][oi]) for i in grp]
+                if any(x is None for x in ons):
+                    extent[a] = None          # not judged
+                    continue
+                ends = [o + (_num(rows[i][di]) or 0.0) for o, i in zip(ons, grp)]
+                extent[a] = max(ends) - ons[0]
 
         def checker(res):
             if res["columns"] != cols:
                 return "columns changed: %s" % res["columns"]
             if len(res["rows"]) != len(kept):
                 return "expected %d rows after merging consecutive %r rows, got %d" % (len(kept), code, len(res["rows"]))
-            for a, b in zip(kept, res["rows"]):
+            for k_, (a, b) in enumerate(zip(kept, res["rows"])):
                 for j, (x, y) in enumerate(zip(a, b)):
+                    if j == di and kept_idx[k_] in extent:
+                        want = extent[kept_idx[k_]]
+                        if want is not None and (_num(y) is None or abs(_num(y) - want) > 1e-9):
+                            return ("merged row %s: duration %r, but the merged rows extend %g s from its onset (rows %s)"
+                                    % (a, y, want, [rows[i] for i in range(kept_idx[k_], (kept_idx[k_ + 1] if k_ + 1 < len(kept_idx)
+                                                                                      else len(rows)))]))
+                        continue
                     if j == di and p["set_durations"] and a[ci] == str(code):
                         continue
                     if not _cell_eq(x, y):
@@ -693,6 +726,21 @@ def execute(sc, script=None):
             if not _table_eq(got, ref):
                 viol("history-independence", "call %d: table %d processed by the used dispatcher gives\n%s\nbut a fresh dispatcher gives\n%s"
                      % (ci, ti, _to_tsv(got), _to_tsv(ref)), "used-vs-fresh-differs-%s" % "+".join(o["operation"] for o in sc["ops"]))
+            # (1b) a list is the composition of its operations: running them one list at a time, each on the previous
+            # result, gives the same table
+            if len(sc["ops"]) > 1 and ti not in seen_tables[:-1]:
+                try:
+                    step = _read(W, sc["tables"][ti])
+                    for o in sc["ops"]:
+                        step = Dispatcher([copy.deepcopy(o)], data_root=None, backup_name=None).run_operations(step)
+                    probe("composition_checked")
+                    if not _table_eq(got, _df_to_table(step)):
+                        viol("documented-meaning", "table %d: the list %s gives\n%s\nbut its operations applied one list at a time give\n%s"
+                             % (ti, [o["operation"] for o in sc["ops"]], _to_tsv(got), _to_tsv(_df_to_table(step))),
+                             "list-differs-from-composition-%s" % "+".join(o["operation"] for o in sc["ops"]))
+                except Exception as e:  # noqa
+                    viol("completion", "applying the operations one list at a time raised %s: %s" % (type(e).__name__, str(e)[:300]),
+                         "composition-%s-%s" % (_failing_op(sc["ops"], e), type(e).__name__))
             # (3) documented meaning
             _check_model(sc, ti, got, viol, probe)
             if any("NaN!" in r for r in got["rows"]) or any(c == "nan" for r in got["rows"] for c in r):
